@@ -45,15 +45,15 @@ DERIVED = [
 
 
 def bounds(tier):
-    return {'raw_depth_2keys': 7 if tier == 'quick' else 9, 'raw_depth_3keys': 6 if tier == 'quick' else 8,
+    return {'raw_depth_2keys': 8 if tier == 'quick' else 9, 'raw_depth_3keys': 7 if tier == 'quick' else 8,
             'plain_len': 5 if tier == 'quick' else 6, 'accumulators': [a[0] for a in ACCS]}
 
 
 def units(tier):
     out = []
-    d2 = 7 if tier == 'quick' else 9
-    d3 = 6 if tier == 'quick' else 8
-    n = 2 if tier == 'quick' else 8
+    d2 = 8 if tier == 'quick' else 9
+    d3 = 7 if tier == 'quick' else 8
+    n = 4 if tier == 'quick' else 16
     for ai in range(len(ACCS)):
         for factory in (False, True):
             for reduce in (False, True):
